@@ -1,7 +1,7 @@
 (* C22 — proofs about the MPMC model: the invariant of MpmcInv.v holds in every state reachable
    by any schedule of any number of threads running any programs, and the consequences
    (sequence invariant, no loss / no duplication, FIFO linearisation, close, no panic). *)
-From OFGA Require Import Conc.FifoSpec Conc.Mpmc Conc.MpmcLemmas Conc.MpmcInv.
+From OFGA Require Import Conc.FifoSpec Conc.Mpmc Conc.MpmcLemmas Conc.MpmcInv Conc.FifoSpecProofs.
 From Coq Require Import Lia.
 
 (* ------------------------------------------------------------------------------------------ *)
@@ -716,4 +716,549 @@ Proof.
       destruct (tpc thu); simpl in Ou; try discriminate; lia.
     + eapply owners_tail_cas; [apply (i_own _ _ HI) | exact Ht | reflexivity | reflexivity | reflexivity | reflexivity].
   - same_glob HI Ht. lia.
+Qed.
+
+Lemma mod_contra a b c : 2 <= c -> a mod c = b mod c -> a = b + 1 -> False.
+Proof.
+  intros Hc Hm E. subst a. replace (b + 1) with (S b) in Hm by lia.
+  apply (mod_succ_ne b c); auto.
+Qed.
+
+(* the sequence claim of the stepping thread and of another thread on the same slot *)
+Ltac same_slot G Emod :=
+  match goal with
+  | A : seq_at G ?p = _, B : seq_at G ?q = _ |- _ =>
+      let X := fresh "X" in
+      assert (X : seq_at G p = seq_at G q) by (apply seq_same_slot; auto);
+      rewrite A, B in X
+  end.
+
+Lemma pres_S_write : pres S_write.
+Proof.
+  start. destruct Hti as (H1 & H2 & H3 & H4 & H5). inversion Hs; subst; clear Hs.
+  pose proof (gi_cap _ Hg) as Hc.
+  eapply (step_generic _ _ _ _ _ _ _ HI Ht).
+  - apply ginv_set_data; auto.
+  - intros u thu Hne Hu Hi _ _ Hsd _. apply frame_set_data; auto.
+    simpl in Hsd. unfold tinv in Hi.
+    intros [E|E] Emod; rewrite E in *; simpl in *.
+    + destruct Hi as (_ & _ & _ & I4 & _).
+      assert (X : seq_at G (r_pos thu) = seq_at G pos) by (apply seq_same_slot; auto).
+      rewrite I4, H4 in X. apply Hsd; auto.
+    + destruct Hi as (_ & I4 & _).
+      assert (X : seq_at G (r_pos thu) = seq_at G pos) by (apply seq_same_slot; auto).
+      rewrite I4, H4 in X. apply (mod_contra pos (r_pos thu) (cap G)); auto.
+  - unfold tinv; simpl. repeat split; auto.
+    + unfold seq_at; simpl. rewrite fst_set_data; auto.
+    + unfold data_at; simpl. rewrite slot_set_data_eq; auto.
+  - ev_nil.
+  - unfold pc_op; simpl; split; [eauto | reflexivity].
+  - lock_tac.
+  - lock_tac.
+  - own_tac.
+  - own_tac.
+  - apply owners_set_data; auto.
+    eapply owners_upd_keep; [apply (i_own _ _ HI) | exact Ht | simpl; auto | simpl; intro; discriminate].
+Qed.
+
+Lemma pres_S_pub : pres S_pub.
+Proof.
+  start. destruct Hti as (H1 & H2 & H3 & H4 & H5 & H6). inversion Hs; subst; clear Hs.
+  pose proof (gi_cap _ Hg) as Hc.
+  eapply (step_generic _ _ _ _ _ _ _ HI Ht).
+  - apply ginv_set_seq_pub; auto; congruence.
+  - intros u thu Hne Hu Hi _ _ Hsd _. apply frame_set_seq; auto.
+    simpl in Hsd. unfold tinv in Hi. unfold seq_frame_cond.
+    destruct (tpc thu); simpl in *; auto.
+    + destruct Hi as (_ & _ & I3). intros Eh Emod. specialize (I3 Eh).
+      assert (X : seq_at G (r_pos thu) = seq_at G pos) by (apply seq_same_slot; auto).
+      rewrite I3, H4 in X. lia.
+    + destruct Hi as (_ & _ & _ & I4 & _). intros Emod.
+      assert (X : seq_at G (r_pos thu) = seq_at G pos) by (apply seq_same_slot; auto).
+      rewrite I4, H4 in X. apply Hsd; auto.
+    + destruct Hi as (_ & _ & _ & I4 & _). intros Emod.
+      assert (X : seq_at G (r_pos thu) = seq_at G pos) by (apply seq_same_slot; auto).
+      rewrite I4, H4 in X. apply Hsd; auto.
+    + destruct Hi as (_ & I3). intros Eh Emod. specialize (I3 Eh).
+      assert (X : seq_at G (r_pos thu) = seq_at G pos) by (apply seq_same_slot; auto).
+      rewrite I3, H4 in X. apply (mod_contra pos (r_pos thu) (cap G)); auto.
+    + destruct Hi as (_ & I4 & _). intros Emod.
+      assert (X : seq_at G (r_pos thu) = seq_at G pos) by (apply seq_same_slot; auto).
+      rewrite I4, H4 in X. apply (mod_contra pos (r_pos thu) (cap G)); auto.
+    + destruct Hi as (_ & I4). intros Emod.
+      assert (X : seq_at G (r_pos thu) = seq_at G pos) by (apply seq_same_slot; auto).
+      rewrite I4, H4 in X. apply (mod_contra pos (r_pos thu) (cap G)); auto.
+  - unfold tinv; simpl. auto.
+  - ev_nil.
+  - unfold pc_op; simpl; split; [eauto | reflexivity].
+  - lock_tac.
+  - lock_tac.
+  - own_tac.
+  - own_tac.
+  - eapply owners_set_seq; [auto | apply (i_own _ _ HI) | exact Ht | reflexivity | | ].
+    + intros M _. apply (mod_contra (pos + 1) pos (cap G)); auto.
+    + intros c E M L. lia.
+Qed.
+
+Lemma pres_R_read : pres R_read.
+Proof.
+  start. destruct Hti as (H1 & H4 & H5). inversion Hs; subst; clear Hs.
+  pose proof (gi_cap _ Hg) as Hc.
+  eapply (step_generic _ _ _ _ _ _ _ HI Ht).
+  - apply ginv_set_data; auto.
+  - intros u thu Hne Hu Hi _ _ _ Hrd. apply frame_set_data; auto.
+    simpl in Hrd. unfold tinv in Hi.
+    intros [E|E] Emod; rewrite E in *; simpl in *.
+    + destruct Hi as (_ & _ & _ & I4 & _).
+      assert (X : seq_at G (r_pos thu) = seq_at G pos) by (apply seq_same_slot; auto).
+      rewrite I4, H4 in X. apply (mod_contra (r_pos thu) pos (cap G)); auto.
+    + destruct Hi as (_ & I4 & _).
+      assert (X : seq_at G (r_pos thu) = seq_at G pos) by (apply seq_same_slot; auto).
+      rewrite I4, H4 in X. apply Hrd; auto. lia.
+  - unfold tinv; simpl. repeat split; auto.
+    unfold seq_at; simpl. rewrite fst_set_data; auto.
+  - ev_nil.
+  - unfold pc_op; simpl; split; [eauto | reflexivity].
+  - lock_tac.
+  - lock_tac.
+  - own_tac.
+  - own_tac.
+  - apply owners_set_data; auto.
+    eapply owners_upd_keep; [apply (i_own _ _ HI) | exact Ht | simpl; intro; discriminate | simpl; auto].
+Qed.
+
+Lemma pres_R_recycle : pres R_recycle.
+Proof.
+  start. destruct Hti as (H1 & H4). inversion Hs; subst; clear Hs.
+  pose proof (gi_cap _ Hg) as Hc.
+  destruct (slot_phase1 G pos Hg H4) as (P1 & P2 & P3 & _).
+  eapply (step_generic _ _ _ _ _ _ _ HI Ht).
+  - apply ginv_set_seq_recycle; auto.
+  - intros u thu Hne Hu Hi _ _ _ Hrd. apply frame_set_seq; auto.
+    simpl in Hrd. unfold tinv in Hi. unfold seq_frame_cond.
+    destruct (tpc thu); simpl in *; auto.
+    + destruct Hi as (_ & _ & I3). intros Eh Emod. specialize (I3 Eh).
+      assert (X : seq_at G (r_pos thu) = seq_at G pos) by (apply seq_same_slot; auto).
+      rewrite I3, H4 in X. apply (mod_contra (r_pos thu) pos (cap G)); auto.
+    + destruct Hi as (_ & _ & _ & I4 & _). intros Emod.
+      assert (X : seq_at G (r_pos thu) = seq_at G pos) by (apply seq_same_slot; auto).
+      rewrite I4, H4 in X. apply (mod_contra (r_pos thu) pos (cap G)); auto.
+    + destruct Hi as (_ & _ & _ & I4 & _). intros Emod.
+      assert (X : seq_at G (r_pos thu) = seq_at G pos) by (apply seq_same_slot; auto).
+      rewrite I4, H4 in X. apply (mod_contra (r_pos thu) pos (cap G)); auto.
+    + destruct Hi as (I1 & I3). intros Eh Emod. specialize (I3 Eh).
+      assert (X : seq_at G (r_pos thu) = seq_at G pos) by (apply seq_same_slot; auto).
+      rewrite I3, H4 in X. lia.
+    + destruct Hi as (_ & I4 & _). intros Emod.
+      assert (X : seq_at G (r_pos thu) = seq_at G pos) by (apply seq_same_slot; auto).
+      rewrite I4, H4 in X. apply Hrd; auto. lia.
+    + destruct Hi as (_ & I4). intros Emod.
+      assert (X : seq_at G (r_pos thu) = seq_at G pos) by (apply seq_same_slot; auto).
+      rewrite I4, H4 in X. apply Hrd; auto. lia.
+  - unfold tinv; simpl. auto.
+  - ev_nil.
+  - unfold pc_op; simpl; split; [eauto | reflexivity].
+  - lock_tac.
+  - lock_tac.
+  - own_tac.
+  - own_tac.
+  - eapply owners_set_seq; [auto | apply (i_own _ _ HI) | exact Ht | reflexivity | | ].
+    + intros _ L. lia.
+    + intros c E M L.
+      assert ((S c) mod cap G = pos mod cap G) by (rewrite <- E; apply mod_add_cap; lia).
+      apply (mod_succ_ne c (cap G)); auto. congruence.
+Qed.
+
+Lemma pres_S_sig : pres S_sig.
+Proof.
+  start. destruct (eclosed G) eqn:He.
+  - rewrite (gi_ecl _ Hg He) in Hti. discriminate.
+  - inversion Hs; subst; clear Hs. core_glob HI Ht Hg.
+Qed.
+
+Lemma pres_R_sig : pres R_sig.
+Proof.
+  start. destruct (fclosed G) eqn:He.
+  - rewrite (gi_ecl _ Hg (gi_fcl _ Hg He)) in Hti. discriminate.
+  - inversion Hs; subst; clear Hs. core_glob HI Ht Hg.
+Qed.
+
+Lemma pres_R_loadseq : pres R_loadseq.
+Proof.
+  start. pose proof (gi_cap _ Hg) as Hc.
+  destruct (Nat.eqb_spec (seq_at G pos) (pos + 1)) as [E|NE];
+    [|destruct (Nat.ltb_spec (seq_at G pos) (pos + 1)) as [L|L]];
+    injection Hs as EG Eth; subst G' th'; same_glob HI Ht; auto.
+  split; auto. intro Hd.
+  assert (Hi : pos mod cap G < cap G) by (apply mod_lt'; lia).
+  destruct (i_own _ _ HI _ Hi) as [O1 _]. simpl in O1.
+  unfold seq_at in L.
+  destruct (gi_slots _ Hg _ Hi) as [(A & B & C)|(c & A & B & C & D & E & F)].
+  - destruct (Nat.eq_dec (fst (slot_at G (pos mod cap G))) pos) as [Eq|Ne].
+    + destruct (Nat.lt_ge_cases pos (head G)) as [Lh|Lh]; auto.
+      exfalso. rewrite Eq in O1. destruct (O1 eq_refl Lh) as (u & thu & Hu & Ou & _).
+      pose proof (i_t _ _ HI _ _ Hu) as Hi'. unfold tinv in Hi'. simpl in Hi'.
+      destruct (tpc thu); simpl in Ou; try discriminate; destruct Hi' as (_ & _ & Hd' & _); congruence.
+    + destruct (Nat.le_gt_cases (fst (slot_at G (pos mod cap G)) + cap G) pos); [lia|].
+      exfalso. apply Ne. apply (mod_close _ _ (cap G)); auto; lia.
+  - destruct (Nat.le_gt_cases (c + cap G) pos); [lia|].
+    exfalso. assert (c = pos) by (apply (mod_close _ _ (cap G)); auto; lia). lia.
+Qed.
+
+Lemma pres_R_empty : pres R_empty.
+Proof.
+  start. destruct Hti as [H1 H2].
+  destruct (done G) eqn:Hd; inversion Hs; subst; clear Hs.
+  - specialize (H2 eq_refl). ev_glob HI Ht (EDeqFail t).
+    rewrite skipn_all' by (rewrite (gi_nenq _ Hg); lia). simpl. rewrite Hd. reflexivity.
+  - same_glob HI Ht.
+Qed.
+
+Lemma owners_fields G G' T : slots G' = slots G -> cap G' = cap G -> head G' = head G ->
+  tail G' = tail G -> owners_ok G T -> owners_ok G' T.
+Proof.
+  intros E1 E2 E3 E4. unfold owners_ok, slot_at. rewrite E1, E2, E3, E4. auto.
+Qed.
+
+Lemma ginv_done G t : ginv G -> done G = false -> ginv (with_done_ev G (EClose t)).
+Proof.
+  intros Hg Hd.
+  assert (Een : enqs (events G ++ [EClose t]) = enqs (events G))
+    by (rewrite enqs_app; simpl; apply app_nil_r).
+  constructor; simpl; try apply Hg; auto.
+  - intros i Hi. pose proof (gi_slots _ Hg i Hi) as S. unfold slot_ok in *. simpl.
+    change (slot_at (with_done_ev G (EClose t)) i) with (slot_at G i). rewrite Een. exact S.
+  - rewrite Een. apply Hg.
+  - rewrite run_spec_app, (gi_spec _ Hg). simpl. rewrite Een. reflexivity.
+Qed.
+
+Lemma pres_C_swap : pres C_swap.
+Proof.
+  start. destruct (done G) eqn:Hd; inversion Hs; subst; clear Hs.
+  - ev_glob HI Ht (EClose t). simpl. rewrite Hd. reflexivity.
+  - eapply (step_generic _ _ _ _ _ _ _ HI Ht).
+    + apply ginv_done; auto.
+    + intros u thu Hne Hu Hi Hx _ _ _. destruct (Hx eq_refl). apply tinv_unlocked; auto.
+    + unfold tinv; simpl. repeat split.
+      * destruct (eclosed G) eqn:He; auto. rewrite (gi_ecl _ Hg He) in Hd. discriminate.
+      * destruct (fclosed G) eqn:He; auto. rewrite (gi_ecl _ Hg (gi_fcl _ Hg He)) in Hd. discriminate.
+    + ev_one (EClose t).
+    + unfold pc_op; simpl; split; [eauto | reflexivity].
+    + lock_tac.
+    + lock_tac.
+    + own_tac.
+    + own_tac.
+    + eapply (owners_fields G); try reflexivity.
+      eapply owners_upd_keep; [apply (i_own _ _ HI) | exact Ht | simpl; intro; discriminate | simpl; intro; discriminate].
+Qed.
+
+Lemma pres_C_close_empty : pres C_close_empty.
+Proof.
+  start. destruct Hti as (H1 & H2 & H3). rewrite H2 in Hs. inversion Hs; subst; clear Hs.
+  eapply (step_generic _ _ _ _ _ _ _ HI Ht).
+  - constructor; simpl; try apply Hg; auto.
+  - intros u thu Hne Hu Hi Hx _ _ _. destruct (Hx eq_refl). apply tinv_unlocked; auto.
+  - unfold tinv; simpl. auto.
+  - ev_nil.
+  - unfold pc_op; simpl; split; [eauto | reflexivity].
+  - lock_tac.
+  - lock_tac.
+  - own_tac.
+  - own_tac.
+  - eapply (owners_fields G); try reflexivity.
+    eapply owners_upd_keep; [apply (i_own _ _ HI) | exact Ht | simpl; intro; discriminate | simpl; intro; discriminate].
+Qed.
+
+Lemma pres_C_close_full : pres C_close_full.
+Proof.
+  start. destruct Hti as (H1 & H2 & H3). rewrite H3 in Hs. inversion Hs; subst; clear Hs.
+  eapply (step_generic _ _ _ _ _ _ _ HI Ht).
+  - constructor; simpl; try apply Hg; auto.
+  - intros u thu Hne Hu Hi Hx _ _ _. destruct (Hx eq_refl). apply tinv_unlocked; auto.
+  - unfold tinv; simpl. auto.
+  - ev_nil.
+  - unfold pc_op; simpl; split; [eauto | reflexivity].
+  - lock_tac.
+  - lock_tac.
+  - own_tac.
+  - own_tac.
+  - eapply (owners_fields G); try reflexivity.
+    eapply owners_upd_keep; [apply (i_own _ _ HI) | exact Ht | simpl; intro; discriminate | simpl; intro; discriminate].
+Qed.
+
+Lemma own_is_read p : s_own p = true \/ r_own p = true -> read_pc p = true.
+Proof. destruct p; simpl; intros [H|H]; auto; discriminate. Qed.
+
+(* while a thread holds the write lock nobody owns a slot *)
+Lemma writer_no_owner progs G T t th : Inv progs (mkState G T) -> nth_error T t = Some th ->
+  write_pc (tpc th) = true -> no_owner T.
+Proof.
+  intros HI Ht W u thu Hu.
+  destruct (Nat.eq_dec u t) as [->|Hne].
+  - assert (thu = th) by congruence. subst thu.
+    destruct (tpc th); simpl in *; auto; discriminate.
+  - destruct (i_mutex _ _ HI t u th thu ltac:(auto) Ht Hu W) as [R _]. simpl in R.
+    split.
+    + destruct (s_own (tpc thu)) eqn:E; auto. rewrite own_is_read in R; auto.
+    + destruct (r_own (tpc thu)) eqn:E; auto. rewrite own_is_read in R; auto.
+Qed.
+
+Lemma events_extend G n : events (extend G n) = events G.
+Proof. unfold extend. destruct (n <=? cap G); reflexivity. Qed.
+
+(* an extend step (from S_ext or G_ext) *)
+Lemma pres_extend progs G T t th th' n :
+  Inv progs (mkState G T) -> nth_error T t = Some th ->
+  write_pc (tpc th) = true -> write_pc (tpc th') = true ->
+  (forall G0, tinv G0 th') ->
+  inflight t th' = inflight t th -> res th' = res th -> prog th' = prog th -> pc_op th' ->
+  Inv progs (mkState (extend G n) (upd t th' T)).
+Proof.
+  intros HI Ht W W' Hti Hif Hres Hprog Hpo.
+  pose proof (i_g _ _ HI) as Hg; simpl in Hg.
+  assert (Rf : read_pc (tpc th') = false) by (destruct (tpc th'); simpl in *; auto; discriminate).
+  assert (Sf : s_own (tpc th') = false) by (destruct (tpc th'); simpl in *; auto; discriminate).
+  assert (Qf : r_own (tpc th') = false) by (destruct (tpc th'); simpl in *; auto; discriminate).
+  assert (Sf0 : s_own (tpc th) = false) by (destruct (tpc th); simpl in *; auto; discriminate).
+  assert (Qf0 : r_own (tpc th) = false) by (destruct (tpc th); simpl in *; auto; discriminate).
+  eapply (step_generic _ _ _ _ _ _ _ HI Ht).
+  - destruct (Nat.le_gt_cases n (cap G)) as [L|L].
+    + rewrite extend_noop; auto.
+    + eapply ginv_extend; eauto. apply (i_own _ _ HI). eapply writer_no_owner; eauto.
+  - intros u thu Hne Hu Hi Hx _ _ _. destruct (Hx W). apply tinv_unlocked; auto.
+  - apply Hti.
+  - exists (@nil event). rewrite events_extend, !app_nil_r.
+    split; [reflexivity | split; [intros ? [] | congruence]].
+  - split; auto. congruence.
+  - auto.
+  - rewrite Rf. discriminate.
+  - rewrite Sf. discriminate.
+  - rewrite Qf. discriminate.
+  - destruct (Nat.le_gt_cases n (cap G)) as [L|L].
+    + rewrite extend_noop; auto.
+      eapply owners_upd_keep; [apply (i_own _ _ HI) | exact Ht | rewrite Sf0; discriminate | rewrite Qf0; discriminate].
+    + apply owners_extend; auto.
+Qed.
+
+Lemma pres_S_ext : pres S_ext.
+Proof.
+  start. destruct ((cp =? cap G) && negb (done G)); injection Hs as EG Eth; subst G' th'.
+  - apply (pres_extend progs G T t _ _ (2 * cap G) HI Ht); auto; try (intro G0; exact I).
+  - same_glob HI Ht.
+Qed.
+
+Lemma pres_G_ext : pres G_ext.
+Proof.
+  start. destruct Hpo as (n & rest & ->). injection Hs as EG Eth; subst G' th'.
+  apply (pres_extend progs G T t _ _ n HI Ht); auto; try (intro G0; exact I).
+  unfold pc_op; simpl. eauto.
+Qed.
+
+Lemma step_inv progs s t s' : Inv progs s -> step s t = Some s' -> Inv progs s'.
+Proof.
+  destruct s as [G T]. unfold step. simpl. intros HI Hs.
+  destruct (panicked G); [discriminate|].
+  destruct (nth_error T t) as [th|] eqn:Ht; [|discriminate].
+  destruct (tstep G (no_writer T) (no_holder T) t th) as [[G' th']|] eqn:Hst; [|discriminate].
+  injection Hs as <-.
+  destruct (tpc th) eqn:Epc.
+  all: first
+    [ eapply pres_Idle; eassumption | eapply pres_S_chk0; eassumption
+    | eapply pres_S_loadhead; eassumption | eapply pres_S_loop; eassumption
+    | eapply pres_S_loadseq; eassumption | eapply pres_S_cas; eassumption
+    | eapply pres_S_write; eassumption | eapply pres_S_pub; eassumption
+    | eapply pres_S_sig; eassumption | eapply pres_S_rett; eassumption
+    | eapply pres_S_retf; eassumption | eapply pres_S_snap; eassumption
+    | eapply pres_S_lock; eassumption | eapply pres_S_ext; eassumption
+    | eapply pres_S_unlock; eassumption | eapply pres_S_park; eassumption
+    | eapply pres_S_relock; eassumption | eapply pres_R_loadtail; eassumption
+    | eapply pres_R_loadseq; eassumption | eapply pres_R_cas; eassumption
+    | eapply pres_R_read; eassumption | eapply pres_R_recycle; eassumption
+    | eapply pres_R_chkdone; eassumption | eapply pres_R_sig; eassumption
+    | eapply pres_R_rett; eassumption | eapply pres_R_empty; eassumption
+    | eapply pres_R_retf; eassumption | eapply pres_R_unl; eassumption
+    | eapply pres_R_park; eassumption | eapply pres_R_relock; eassumption
+    | eapply pres_C_swap; eassumption | eapply pres_C_close_empty; eassumption
+    | eapply pres_C_close_full; eassumption | eapply pres_C_unlock; eassumption
+    | eapply pres_G_ext; eassumption | eapply pres_G_unlock; eassumption ].
+Qed.
+
+(* ------------------------------------------------------------------------------------------ *)
+(* initial state, arbitrary schedules *)
+
+Lemma init_inv c e progs : 2 <= c -> Inv progs (init c e progs).
+Proof.
+  intro Hc. unfold init.
+  assert (Hth : forall t th, nth_error (map init_thread progs) t = Some th ->
+                exists p, nth_error progs t = Some p /\ th = init_thread p).
+  { intros t th H. rewrite nth_error_map in H. destruct (nth_error progs t) as [p|]; [|discriminate].
+    injection H as <-. eauto. }
+  constructor; simpl.
+  - constructor; simpl; auto; try discriminate.
+    + unfold init_slots. rewrite map_length, seq_length. reflexivity.
+    + intros i Hi. unfold slot_ok, slot_at; simpl; unfold init_slots. rewrite nth_map_seq by auto. simpl.
+      left. repeat split; try lia. apply Nat.mod_small. auto.
+  - intros t th H. destruct (Hth _ _ H) as (p & _ & ->). exact I.
+  - intros t th H. destruct (Hth _ _ H) as (p & _ & ->). reflexivity.
+  - intros t th H. destruct (Hth _ _ H) as (p & Hp & ->). split; [exact I|]. exact Hp.
+  - intros t u th1 th2 _ H _ W. destruct (Hth _ _ H) as (p & _ & ->). discriminate.
+  - intros t u th1 th2 _ H _ W. destruct (Hth _ _ H) as (p & _ & ->). discriminate.
+  - intros t u th1 th2 _ H _ W. destruct (Hth _ _ H) as (p & _ & ->). discriminate.
+  - intros i Hi. unfold slot_at; simpl; unfold init_slots. rewrite nth_map_seq by auto. simpl. split.
+    + intros _ L. lia.
+    + intros c0 E _ L. lia.
+Qed.
+
+Lemma run_inv progs s sched : Inv progs s -> Inv progs (run s sched).
+Proof.
+  revert s. induction sched as [|t r IH]; intros s HI; simpl; auto.
+  destruct (step s t) as [s'|] eqn:E; auto. apply IH. eapply step_inv; eauto.
+Qed.
+
+Theorem reachable_inv c e progs sched : 2 <= c -> Inv progs (run (init c e progs) sched).
+Proof. intro Hc. apply run_inv. apply init_inv. exact Hc. Qed.
+
+(* ------------------------------------------------------------------------------------------ *)
+(* the property theorems *)
+
+(* slot i carries the sequence number of exactly one position pos = i (mod capacity) inside the
+   window [head - capacity, tail + capacity): seq = pos (writable, or claimed by the sender of
+   pos) or seq = pos + 1 (readable, or claimed by the receiver of pos; after recycling the slot
+   serves pos + capacity with seq = pos + capacity).  Every position in [tail, head) is served by
+   its slot. *)
+Definition seq_invariant (G : glob) : Prop :=
+  2 <= cap G /\ length (slots G) = cap G /\ tail G <= head G /\ head G <= tail G + cap G
+  /\ (forall i, i < cap G -> exists pos,
+        pos mod cap G = i /\ head G <= pos + cap G /\ pos < tail G + cap G
+        /\ (fst (slot_at G i) = pos \/ (fst (slot_at G i) = pos + 1 /\ pos < head G)))
+  /\ (forall p, tail G <= p -> p < head G -> seq_at G p = p \/ seq_at G p = p + 1).
+
+Lemma ginv_seq_invariant G : ginv G -> seq_invariant G.
+Proof.
+  intros Hg. pose proof (gi_cap _ Hg) as Hc.
+  repeat split; try apply Hg; auto.
+  - apply head_le_tail_cap; auto.
+  - intros i Hi. destruct (gi_slots _ Hg i Hi) as [(A & B & C)|(c & A & B & C & D & E & F)].
+    + exists (fst (slot_at G i)). auto.
+    + exists c. repeat split; auto. right. split; auto. lia.
+  - intros p Hp1 Hp2.
+    assert (Hi : p mod cap G < cap G) by (apply mod_lt'; lia).
+    unfold seq_at.
+    destruct (gi_slots _ Hg _ Hi) as [(A & B & C)|(c & A & B & C & D & E & F)].
+    + left. apply (mod_close _ _ (cap G)); auto; lia.
+    + right. assert (c = p) by (apply (mod_close _ _ (cap G)); auto; lia). lia.
+Qed.
+
+Theorem mpmc_seq_invariant_lemma c e progs sched : 2 <= c ->
+  seq_invariant (g (run (init c e progs) sched)).
+Proof. intro Hc. apply ginv_seq_invariant. apply (i_g _ _ (reachable_inv c e progs sched Hc)). Qed.
+
+(* extend keeps it (a corollary, stated separately because the design asks for it) *)
+Theorem mpmc_seq_invariant_extend_lemma c e progs sched t : 2 <= c ->
+  let s := run (init c e progs) sched in
+  forall s', step s t = Some s' -> seq_invariant (g s').
+Proof.
+  intros Hc s s' Hs. apply ginv_seq_invariant.
+  apply (i_g _ _ (step_inv progs s t s' (reachable_inv c e progs sched Hc) Hs)).
+Qed.
+
+Lemma nth_error_skipn' {A} (l : list A) n k : nth_error (skipn n l) k = nth_error l (n + k).
+Proof.
+  revert l. induction n as [|n IH]; intros [|x l]; simpl; auto. destruct k; reflexivity.
+Qed.
+
+(* the buffered items, oldest first *)
+Definition pending (G : glob) : list N := skipn (tail G + base G) (enqs (events G)).
+
+(* no loss, no duplication: everything ever enqueued = everything dequeued ++ what is buffered,
+   as sequences (hence as multisets); the buffer has head-tail entries and a published slot
+   physically holds its entry *)
+Theorem mpmc_no_loss_no_dup_lemma c e progs sched : 2 <= c ->
+  let G := g (run (init c e progs) sched) in
+  enqs (events G) = deqs (events G) ++ pending G
+  /\ length (pending G) = head G - tail G
+  /\ (forall k, k < head G - tail G -> seq_at G (tail G + k) = tail G + k + 1 ->
+        nth_error (pending G) k = Some (data_at G (tail G + k))).
+Proof.
+  intros Hc G. pose proof (i_g _ _ (reachable_inv c e progs sched Hc)) as Hg. fold G in Hg.
+  split; [|split].
+  - apply (run_spec_fifo chan0 _ _ (gi_spec _ Hg)).
+  - unfold pending. rewrite skipn_length, (gi_nenq _ Hg). pose proof (gi_th _ Hg). lia.
+  - intros k Hk Hs. destruct (slot_phase1 G _ Hg Hs) as (_ & _ & _ & F).
+    unfold pending. rewrite nth_error_skipn'.
+    replace (tail G + base G + k) with (tail G + k + base G) by lia. apply F. lia.
+Qed.
+
+(* linearisation by CAS order is a legal FIFO-channel history; and every thread's completed
+   calls returned exactly what its linearisation events say, in program order *)
+Theorem mpmc_fifo_lemma c e progs sched : 2 <= c ->
+  let s := run (init c e progs) sched in
+  legal (events (g s))
+  /\ (forall t th, nth_error (thr s) t = Some th ->
+        proj t (events (g s)) = flat_map (res_event t) (res th) ++ inflight t th
+        /\ nth_error progs t = Some (map op_of (res th) ++ prog th)).
+Proof.
+  intros Hc s. pose proof (reachable_inv c e progs sched Hc) as HI. fold s in HI. split.
+  - eexists. apply (gi_spec _ (i_g _ _ HI)).
+  - intros t th Ht. split; [apply (i_ev _ _ HI _ _ Ht) | apply (i_prog _ _ HI _ _ Ht)].
+Qed.
+
+(* close: once a close is linearised no send is linearised after it; a send fails only after a
+   close; a receive fails only when the queue is closed and everything enqueued has been
+   dequeued; the model's done flag is the spec's closed flag *)
+Theorem mpmc_close_lemma c e progs sched : 2 <= c ->
+  let ev := events (g (run (init c e progs) sched)) in
+  (forall a t b, ev = a ++ EClose t :: b -> forall x, In x b -> is_enq x = false)
+  /\ (forall a t b, ev = a ++ EEnqFail t :: b -> exists u, In (EClose u) a)
+  /\ (forall a t b, ev = a ++ EDeqFail t :: b -> enqs a = deqs a /\ exists u, In (EClose u) a).
+Proof.
+  intros Hc ev.
+  assert (L : legal ev) by (apply (mpmc_fifo_lemma c e progs sched Hc)).
+  split; [|split].
+  - intros a t b E. rewrite E in L. eapply legal_no_enq_after_close; eauto.
+  - intros a t b E. rewrite E in L. eapply legal_enqfail_after_close; eauto.
+  - intros a t b E. rewrite E in L. eapply legal_deqfail_drained; eauto.
+Qed.
+
+(* no send on a closed channel, no double close: the Go panics are unreachable *)
+Theorem mpmc_no_panic_lemma c e progs sched : 2 <= c ->
+  panicked (g (run (init c e progs) sched)) = false.
+Proof. intro Hc. apply (gi_nopanic _ (i_g _ _ (reachable_inv c e progs sched Hc))). Qed.
+
+(* ------------------------------------------------------------------------------------------ *)
+(* the wake-up clause: "a blocked receiver is woken whenever an item is available".
+   Full-strength statement (what the property asks of the component): *)
+Definition mpmc_no_lost_wakeup_statement : Prop :=
+  forall c e progs sched r, 2 <= c ->
+    lost_wakeup_state (run (init c e progs) sched) r = false.
+
+(* It is false for the code as written (finding F10, flag mpmc_lost_wakeup).  Witness: capacity 2,
+   no extensions, threads 0,1 = one Recv each, threads 2,3 = one Send each.  Both receivers see
+   "empty", release the read lock and stand before the select on p.empty (5 steps each); both
+   sends run to completion (10 steps each): the first puts the token into p.empty, the second
+   finds the token already there and drops its own (select default); receiver 0 takes the token
+   and the first item and returns (10 steps).  Receiver 1 is parked, p.empty holds no token, the
+   channel is open, item 8 is published at the tail, every other thread has finished. *)
+Definition lw_progs : list (list op) := [[ORecv]; [ORecv]; [OSend 7%N]; [OSend 8%N]].
+Definition lw_sched : list nat :=
+  repeat 0 5 ++ repeat 1 5 ++ repeat 2 10 ++ repeat 3 10 ++ repeat 0 10.
+
+Theorem mpmc_lost_wakeup_refuted_lemma :
+  exists c e progs sched r s,
+    2 <= c /\ multi_receiver progs = true
+    /\ run_strict (init c e progs) sched = Some s
+    /\ run (init c e progs) sched = s
+    /\ lost_wakeup_state s r = true
+    /\ pending (g s) = [8%N].
+Proof.
+  exists 2, (Some 0), lw_progs, lw_sched, 1.
+  eexists. split; [lia|]. split; [reflexivity|].
+  split; [vm_compute; reflexivity|]. split; [vm_compute; reflexivity|].
+  split; vm_compute; reflexivity.
+Qed.
+
+Theorem mpmc_no_lost_wakeup_statement_false : ~ mpmc_no_lost_wakeup_statement.
+Proof.
+  intro H. specialize (H 2 (Some 0) lw_progs lw_sched 1 ltac:(lia)).
+  vm_compute in H. discriminate.
 Qed.
